@@ -610,3 +610,37 @@ def check_frozendict(ctx, cls_fq):
                 bad = n
         ctx.ob('T8f', '%s.%s' % (cls_fq, name), 'does not write the receiver (result built from a fresh dict)', bad is None,
                loc='%s:%d' % (m.module.relpath, bad.lineno if bad else m.node.lineno))
+
+
+def check_no_empty_entry(ctx, cls_fq):
+    """T2.empty: ManyToMany never leaves a key with an empty set behind.  An entry created on demand --
+    `d.setdefault(k, set())` -- is filled on the spot: the call is the receiver of `.add(...)` / `.update(...)`, or its result is
+    bound to a name whose next statement in the same block adds to it.  (A created entry that is filled only by a loop stays
+    empty when the loop runs zero times: `m[k] = []`.)"""
+    prog = ctx.program
+    ci = prog.cls(cls_fq)
+    scope = [m for m in ci.members.values() if isinstance(m, FuncInfo)]
+    scope += [f for f in ci.module.functions.values() if f.name.startswith('_')]
+    for m in scope:
+        par = {}
+        for x in ast.walk(m.node):
+            for ch in ast.iter_child_nodes(x):
+                par[ch] = x
+        for c in ast.walk(m.node):
+            if not (isinstance(c, ast.Call) and isinstance(c.func, ast.Attribute) and c.func.attr == 'setdefault' and len(c.args) == 2 and
+                    isinstance(c.args[1], ast.Call) and call_name(c.args[1]) == 'set' and not c.args[1].args):
+                continue
+            up = par.get(c)
+            ok = isinstance(up, ast.Attribute) and up.attr in ('add', 'update') and isinstance(par.get(up), ast.Call)
+            if not ok and isinstance(up, ast.Assign) and len(up.targets) == 1 and isinstance(up.targets[0], ast.Name):
+                nm = up.targets[0].id
+                holder = par.get(up)
+                for fld in ('body', 'orelse', 'finalbody'):
+                    blk = getattr(holder, fld, None)
+                    if isinstance(blk, list) and up in blk:
+                        i = blk.index(up)
+                        nxt = blk[i + 1] if i + 1 < len(blk) else None
+                        ok = isinstance(nxt, ast.Expr) and isinstance(nxt.value, ast.Call) and isinstance(nxt.value.func, ast.Attribute) \
+                            and nxt.value.func.attr in ('add', 'update') and txt(nxt.value.func.value) == nm
+            ctx.ob('T2.empty', m.fq, 'an entry created on demand (setdefault(k, set())) is filled on the spot: no key is left with an '
+                   'empty set', ok, loc='%s:%d' % (m.module.relpath, c.lineno), detail=txt(up)[:90] if up is not None else '')
